@@ -16,7 +16,7 @@ import (
 func init() {
 	Registry["C11"] = C11
 	Metas["C11"] = Meta{
-		Explanation: "Decides the layout-independence clauses of C11: (L1) in the compute core every return is classified by (hit|miss, delete flag, mode) from the user-function call that reaches it, and all returns of a class carry the same result roles and the same map effect, equal to the operation contract (hit+load-if-exists: old value, no change; hit+delete: old value, slot cleared; hit+update: new or old value per mode, slot replaced; miss+delete: zero value, no change; miss+insert: new value, slot filled or bucket linked) - so results cannot depend on which slot-occupancy path (free slot, full chain, new bucket) was taken; wrapper adapters return the documented (value, delete) pair; (L2) every slot loop runs from 0 by 1 to the slot array's length and every chain walk that decides 'absent', copies, collects or tests emptiness continues to the end of the chain, advancing along the link of the bucket it stands on - in particular the lock-free lookup returns 'absent' only on a path whose last chain-link test saw next == nil; (L2b) the bucket layout constants agree with the array types and masks (writer's and reader's view); (L3) bucket index, hash seed and bucket array come from one table value per attempt, the copy rehashes with the destination table, and new table lengths are doublings/halvings of the current length, the minimum length or a power of two, every constructor records the installed table's length as the minimum and a half-length table is created only on paths that established 'length > minimum'; the per-slot masks of the packed top-hash word are disjoint, equally wide and clear of the flag bits for every analysed target; (L4) the clear hint installs a fresh minimum-size table and copies nothing; (L5) the integrity premises of grow / shrink / Clear and of the packed bucket words are restated from C03/C04 (P4, P6, P7, P10); (L6) keys that compare equal hash equal under every seed (hasher rules restated from C10). NOT decided: equivalence with a builtin map over call sequences.",
+		Explanation: "Decides the layout-independence clauses of C11: (L1) in the compute core every return is classified by (hit|miss, delete flag, mode) from the user-function call that reaches it, and all returns of a class carry the same result roles and the same map effect, equal to the operation contract (hit+load-if-exists: old value, no change; hit+delete: old value, slot cleared; hit+update: new or old value per mode, slot replaced; miss+delete: zero value, no change; miss+insert: new value, slot filled or bucket linked) - so results cannot depend on which slot-occupancy path (free slot, full chain, new bucket) was taken; wrapper adapters return the documented (value, delete) pair; (L2) every slot loop runs from 0 by 1 to the slot array's length and every chain walk that decides 'absent', copies, collects or tests emptiness continues to the end of the chain, advancing along the link of the bucket it stands on - in particular the lock-free lookup returns 'absent' only on a path whose last chain-link test saw next == nil; (L2b) the bucket layout constants agree with the array types and masks (writer's and reader's view); (L3) bucket index, hash seed and bucket array come from one table value per attempt (in Load, the compute core, the copy and any other method reachable from the API that selects a bucket by a hashed key), the copy rehashes with the destination table, and new table lengths are doublings/halvings of the current length, the minimum length or a power of two, every constructor records the installed table's length as the minimum and a half-length table is created only on paths that established 'length > minimum'; the per-slot masks of the packed top-hash word are disjoint, equally wide and clear of the flag bits for every analysed target; (L4) the clear hint installs a fresh minimum-size table and copies nothing; (L5) the integrity premises of grow / shrink / Clear and of the packed bucket words are restated from C03/C04 (P4, P6, P7, P10); (L6) keys that compare equal hash equal under every seed (hasher rules restated from C10). NOT decided: equivalence with a builtin map over call sequences.",
 		Rule:        "one obligation per (rule, specialisation, exit | loop | constant | call site); non-trivial = decided from explored product-graph paths, loop induction analysis or type-level constants",
 		Assumptions: []string{"runtime hash functions are deterministic per (key, seed)", "C03/C04 protocol shape"},
 	}
@@ -626,7 +626,8 @@ func tableFieldLoads(mm *core.MapModel, v ssa.Value, out map[ssa.Value]string, s
 func c11L3(r *Run, rep *core.Report) {
 	n := 0
 	for _, mm := range r.M.Maps {
-		for _, f := range []*ssa.Function{mm.Methods["Load"], mm.Core, mm.Copy} {
+		sel, extra := rootSelectors(r, mm)
+		for _, f := range sel {
 			if f == nil {
 				continue // incomplete model of this map: reported by the properties that concern it
 			}
@@ -638,6 +639,9 @@ func c11L3(r *Run, rep *core.Report) {
 				}
 				if _, isSlice := ia.X.Type().Underlying().(*types.Slice); !isSlice {
 					return
+				}
+				if extra[f] && hashCallOf(ia.Index) == nil {
+					return // a bucket picked by position (a scan), not by key
 				}
 				n++
 				roots := map[ssa.Value]string{}
